@@ -1,5 +1,6 @@
 from __future__ import annotations
 
+import io
 import json
 from datetime import datetime, timedelta, timezone
 from importlib.util import find_spec
@@ -71,7 +72,13 @@ class AvroWriter(AbstractWriter):
         if self.desc != r._desc:
             raise Exception("Mixed record types")
 
-        self.writer.write(r._packdict())
+        data = r._packdict()
+        # fastavro's block writer encodes a record field by field into its block buffer and does not roll back when a
+        # value is refused halfway (integer outside the schema type, text that cannot be encoded): the bytes of the
+        # fields before it would stay in the block and corrupt every record written afterwards. So encode the record
+        # into a scratch buffer first; only a record that can be encoded completely reaches the block writer.
+        fastavro.schemaless_writer(io.BytesIO(), self.parsed_schema, data)
+        self.writer.write(data)
 
     def flush(self):
         if not self.writer:
